@@ -13,8 +13,8 @@ ASSUMPTIONS = [
     "non-termination is detected by a decision budget and a per-path wall-clock limit (reported as inconclusive and replayed concretely)",
 ]
 BOUNDS = {
-    "quick": "all add/remove sequences of length <= 3 that start with an add (x 8^len quotient choices), checked after every step; resize up/down, auto-expand and merge shapes with <= 3 elements; the full 8-slot table for 4 quotient patterns",
-    "thorough": "adds the length-4 sequences AAAA, AAAR, AARA, AARR, AARR' (8^4 quotient choices each) and merge of 2+2 elements",
+    "quick": "all add/remove sequences of length <= 3 that start with an add (x 8^len quotient choices), checked after every step; 5-add sequences whose quotients cover a window of 3 neighbouring slots (window at 3, and part of the wrap-around window at 6), compared at the end; resize up/down, auto-expand and merge shapes with <= 3 elements; the full 8-slot table for 4 quotient patterns",
+    "thorough": "adds the length-4 sequences AAAA, AAAR, AARA, AARR (8^4 quotient choices each), the 5-operation window sequences for all 8 window positions and 4 shapes, and merge of 2+2 elements",
     "outside": "tables of 16+ slots reached other than by one resize; histories longer than 4; quotient sizes > 4",
 }
 EXPECT_LABELS = {"quick": ["member-present", "hashes-exact", "nonmember-absent", "count", "resize-keeps-set", "merge-is-union",
@@ -68,6 +68,35 @@ def history(ctx, cfg):
             f.remove_alt(x)
             model = [m for m in model if not (m == x)]
         _check_state(ctx, f, model, step, probes=(step == len(shape) - 1))
+
+
+def deep(ctx, cfg):
+    """longer histories (5 operations) with the set compared only at the end; quotients confined to a window of three
+    neighbouring slots (where runs and clusters interact), all rotations of the window including wrap-around"""
+    env.setup(ctx, "qf", "utilities")
+    from probables import QuotientFilter
+    shape, qs = cfg["shape"], cfg["qs"]
+    f = QuotientFilter(quotient=3, auto_expand=False)
+    model = []
+    for step, (op, q) in enumerate(zip(shape, qs)):
+        x = _hash(ctx, f"r{step}", q)
+        if op == "A":
+            f.add_alt(x)
+            if not _member(ctx, x, model):
+                model.append(x)
+        else:
+            f.remove_alt(x)
+            model = [m for m in model if not (m == x)]
+    for m in model:
+        ctx.check(f.check_alt(m) is True, "member-present")
+    got = f.get_hashes()
+    ctx.check(len(got) == len(model) and all(any(g == m for g in got) for m in model), "hashes-exact")
+    ctx.check(f.elements_added == len(model), "count")
+    rb = f.remainder
+    for pq in sorted(set(qs)):
+        p = ctx.compose(pq, 1 << rb, ctx.int(f"probe{pq}", 0, (1 << rb) - 1))
+        if not _member(ctx, p, model):
+            ctx.check(f.check_alt(p) is False, "nonmember-absent")
 
 
 def resize(ctx, cfg):
@@ -207,7 +236,7 @@ def wrappers(ctx, cfg):
     ctx.check(f.check("a") is False and f.check(b"b") is (not same), "wrapper-remove")
 
 
-HARNESS = {"c04.history": history, "c04.resize": resize, "c04.auto": auto, "c04.merge": merge, "c04.full": full,
+HARNESS = {"c04.deep": deep, "c04.history": history, "c04.resize": resize, "c04.auto": auto, "c04.merge": merge, "c04.full": full,
            "c04.wrappers": wrappers}
 
 
@@ -219,6 +248,13 @@ def jobs(tier):
     for sh in shapes:
         for qs in itertools.product(range(8), repeat=len(sh)):
             js.append({"h": "c04.history", "cfg": {"shape": sh, "qs": list(qs)}, "opts": {"cost": 10 ** len(sh), "witnesses": 1}})
+    for sh in ("AAAAA",) if tier == "quick" else ("AAAAA", "AAAAR", "AAARA", "AARAA"):
+        for q0 in (3, 6) if tier == "quick" else range(8):
+            for rel in itertools.product(range(3), repeat=5):
+                if rel[0] != 0 or len(set(rel)) == 1 or (tier == "quick" and (len(set(rel)) < 3 or (q0 == 6 and rel[1] == 0))):
+                    continue        # (five operations on one single quotient: 5! orderings, 150 s per job - thorough tier of c04.history covers 4)
+                js.append({"h": "c04.deep", "cfg": {"shape": sh, "qs": [(q0 + r) % 8 for r in rel]}, "opts": {"cost": 2000, "witnesses": 1}})
+
     def near(a, b):            # the two hashes are neighbours at quotient size 3 (they form a cluster)
         return (a // 2 - b // 2) % 8 in (0, 1, 7)
     for sh, n in (("AAG", 2), ("AAGS", 2), ("AGAS", 2), ("AAGA", 3), ("AAGR", 3)):
